@@ -23,6 +23,7 @@ import itertools
 import json
 import os
 import subprocess
+import warnings
 import sys
 import xml.etree.ElementTree as ET
 from pathlib import Path
@@ -167,6 +168,22 @@ def build_variant(src, steps, dst):
                         e.set(k, " ".join(m.get(t, t) for t in e.get(k).split()))
             inv = {v: k for k, v in m.items()}
             back = inv if back is None else {k: back.get(v, v) for k, v in inv.items()}
+        elif kind == "atomnumber":
+            # drawn atom numbers added to / removed from connection points and ordinary atoms
+            n_new = 0
+            for n in root.iter("n"):
+                nt = n.get("NodeType")
+                if nt in ("MultiAttachment", "Fragment", "Nickname", "GenericNickname", "Unspecified"):
+                    continue
+                is_ap = nt == "ExternalConnectionPoint"
+                if st[1] == "remove-all":
+                    n.attrib.pop("AtomNumber", None)
+                elif st[1] == "remove-ap":
+                    if is_ap:
+                        n.attrib.pop("AtomNumber", None)
+                elif n.get("AtomNumber") is None and (st[1] == "add-all" or (st[1] == "add-ap" and is_ap) or (st[1] == "add-atoms" and not is_ap)):
+                    n_new += 1
+                    n.set("AtomNumber", f"L{n_new}")
         elif kind == "identity":
             pass
         else:  # pragma: no cover
@@ -182,6 +199,8 @@ def vclass(steps):
             names.append(f"renumber-{st[1]}")
         elif st[0] == "permute":
             names.append("permute")
+        elif st[0] == "atomnumber":
+            names.append(f"atomnumber-{st[1]}")
         else:
             names.append(st[0])
     return "+".join(names) if names else "identity"
@@ -336,6 +355,39 @@ def constitution(fr, obs):
     return mapping, reordered, bad
 
 
+def expected_label(a):
+    """drawn atom number if the node carries one; else what the parser documents for the node kind:
+    connection point -> 'AP' + ExternalConnectionNum ('AP0' when it has none), ordinary atom -> None."""
+    if a.label is not None:
+        return a.label, "drawn-atom-number"
+    if a.kind == "ap":
+        return ("AP" + a.apnum if a.apnum else "AP0"), "default"
+    return None, "default"
+
+
+def atom_labels(fr, obs, mapping, reordered):
+    out = []
+    if reordered:
+        # matched by isomorphism: symmetric atoms may be interchanged, only the multiset is meaningful
+        d = _ms(expected_label(a)[0] for a in fr.atoms.values())
+        m = _ms(t[5] for t in obs["atoms"])
+        if d != m:
+            out.append(("atom-label[multiset]", "the multiset of atom labels differs from the drawn atom numbers / documented defaults"))
+        return out
+    seen = set()
+    for key, i in mapping.items():
+        a = fr.atoms[key]
+        exp, src = expected_label(a)
+        got = obs["atoms"][i][5]
+        if got != exp:
+            kind = "connection-point" if a.kind == "ap" else "atom"
+            sym = f"atom-label[{kind};{src}]"
+            if sym not in seen:
+                seen.add(sym)
+                out.append((sym, f"{kind} drawn with AtomNumber={a.label!r} ExternalConnectionNum={a.apnum!r} is labelled {got!r}, expected {exp!r}"))
+    return out
+
+
 def cross2(o, a, b):
     ax, ay, bx, by = a[0] - o[0], a[1] - o[1], b[0] - o[0], b[1] - o[1]
     n = (ax * ax + ay * ay) ** 0.5 * (bx * bx + by * by) ** 0.5
@@ -429,6 +481,114 @@ def rot(lst, k):
     return lst[k:] + lst[:k]
 
 
+EDITS = ("add_implicit_hydrogens", "translate", "coords-assigned", "del_atom", "rename", "atom-fields-assigned", "bond-retyped")
+
+
+def mutate(m, edit):
+    """in-place edits a caller may make on the molecule it was given"""
+    if edit == "add_implicit_hydrogens":
+        m.add_implicit_hydrogens()
+    elif edit == "translate":
+        m.translate([1.5, -2.25, 0.75])
+    elif edit == "coords-assigned":
+        m.coords[:] = m.coords * 2.0 + 1.0
+    elif edit == "del_atom":
+        m.del_atom(m.atoms[m.n_atoms - 1])
+    elif edit == "rename":
+        m.name = "renamed_by_the_caller"
+    elif edit == "atom-fields-assigned":
+        a = m.atoms[0]
+        a.label = "edited"
+        a.formal_charge = (a.formal_charge or 0) + 1
+        a.isotope = 99
+        m.charge = 7
+        m.mult = 5
+    elif edit == "bond-retyped":
+        if m.n_bonds:
+            m.bonds[0].btype = 3
+    else:  # pragma: no cover
+        raise HarnessError(edit)
+
+
+def shares(m, earlier):
+    """what a result has in common with results handed out before (object identity / memory)"""
+    ids_a = {id(a) for a in m.atoms}
+    ids_b = {id(b) for b in m.bonds}
+    for e in earlier:
+        if e is m:
+            return "the same Molecule object"
+        if ids_a & {id(a) for a in e.atoms}:
+            return "Atom objects"
+        if ids_b & {id(b) for b in e.bonds}:
+            return "Bond objects"
+        if np.shares_memory(m.coords, e.coords):
+            return "the coordinate array"
+    return None
+
+
+def access_histories(ctx, src_name, path, D, only, viol):
+    """one CDXMLFile object: get k; edit the result in place; get k again (by label and by index),
+    other labels in between; keys() before and after.  Every access must equal the first access as
+    it was before any edit, and must not share objects with an earlier result."""
+    from molli.ftypes.cdxml import CDXMLFile
+
+    with warnings.catch_warnings():
+        warnings.simplefilter("ignore")
+        f = CDXMLFile(path)
+    keys0 = list(f.keys())
+    labels = [k for k in D.label_order if (only is None or k == only) and k in keys0]
+    for k in labels:
+        pos = keys0.index(k)
+        first, m0 = c13_sub.lookup_obj(f, k)
+        ctx.count(transitions=1)
+        if not isinstance(first, dict):
+            continue  # reported by the plain analysis
+        d0 = c13_sub.digest(first)
+        handed_out = [m0]
+        latest = m0
+        broken = False
+        for n, edit in enumerate(rot(EDITS, ctx.seed)):
+            try:
+                with warnings.catch_warnings():
+                    warnings.simplefilter("ignore")
+                    mutate(latest, edit)
+            except Exception:
+                ctx.add_note(f"access_history_edits_that_raise[{edit}]")
+            # another label in between
+            if len(keys0) > 1:
+                c13_sub.lookup(f, keys0[(pos + 1 + n) % len(keys0)])
+                ctx.count(transitions=1)
+            for how in ("label", "index"):
+                o, m1 = c13_sub.lookup_obj(f, k if how == "label" else pos)
+                ctx.count(transitions=1)
+                ctx.add_note("access_history_lookups")
+                if not isinstance(o, dict):
+                    viol(f"access-history[by-{how}]:later-access-raised", f"{src_name}[{k!r}]: parsed at first, raised {o[1]} when asked again by {how} after the caller's {edit}", k, "access-history")
+                    broken = True
+                    break
+                if how == "index" and o["name"] != k:
+                    o = dict(o)  # the molecule's name is the label either way
+                sh = shares(m1, handed_out)
+                if sh is not None:
+                    viol("access-history:result-shares-objects-with-an-earlier-result", f"{src_name}[{k!r}]: the molecule returned by a later access (by {how}) shares {sh} with a molecule handed out before", k, "access-history")
+                    broken = True
+                if c13_sub.digest(o) != d0:
+                    same_const = o["atoms"] == first["atoms"] and o["bonds"] == first["bonds"]
+                    what = "coordinates" if same_const and (o["charge"], o["mult"], o["name"]) == (first["charge"], first["mult"], first["name"]) else "atoms/bonds/charge/name"
+                    viol(f"access-history[result-edited-in-place;by-{how}]:later-access-differs-from-first", f"{src_name}[{k!r}]: after the caller edited the molecule it was given ({edit}), the next access by {how} differs from the first access in {what} ({len(o['atoms'])} atoms vs {len(first['atoms'])})", k, "access-history")
+                    broken = True
+                if broken:
+                    break
+                handed_out.append(m1)
+                latest = m1
+            if broken:
+                break
+        ctx.outcome(("access-history", "broken" if broken else "ok", len(handed_out) > 1))
+    keys1, keys2 = list(f.keys()), list(f.keys())
+    if not (keys0 == keys1 == keys2) or len(f) != len(keys0):
+        viol("access-history:keys-change", f"{src_name}: keys() lists {len(keys0)}, then {len(keys1)} / {len(keys2)} labels on the same object", None, "access-history")
+
+
 def analyse(ctx, src_name, path, steps, only=None, count=True, base=None):
     """Parses `path` (variant `steps` of the bundled file `src_name`) with molli and checks every
     label against the independent walk of the same file.  Returns {label: Rec}."""
@@ -462,6 +622,9 @@ def analyse(ctx, src_name, path, steps, only=None, count=True, base=None):
     out1b = {k: c13_sub.lookup(f1, k) for k in rot(keys, 1 + ctx.seed)}
     ntrans += 1 + len(out2) + len(out1b)
     ctx.count(transitions=ntrans)
+
+    if not steps and count:
+        access_histories(ctx, src_name, path, D, only, viol)
 
     recs = {}
     for k in labels:
@@ -516,6 +679,8 @@ def analyse(ctx, src_name, path, steps, only=None, count=True, base=None):
         mapping, reordered, bad = constitution(fr, o)
         if reordered:
             ctx.add_note("fragments_matched_by_isomorphism_not_by_document_order")
+        if mapping is not None and not bad:
+            bad = bad + atom_labels(fr, o, mapping, reordered)
         for sym, what in bad:
             viol(f"constitution:{sym}", f"{src_name}[{k!r}] ({vc}): {what}", k)
         feats = (
@@ -670,7 +835,7 @@ def compare(ctx, src_name, steps, back, base, var, mirrored_frag_ids=None):
                 continue
         if rb.obs is None or rv.obs is None:
             continue
-        strip = (lambda t: t[:5]) if any(s[0] == "renumber" for s in steps) else (lambda t: t[:6])
+        strip = (lambda t: t[:5]) if any(s[0] in ("renumber", "atomnumber") for s in steps) else (lambda t: t[:6])
         if [strip(t) for t in rb.obs["atoms"]] != [strip(t) for t in rv.obs["atoms"]] or rb.obs["bonds"] != rv.obs["bonds"] or (rb.obs["charge"], rb.obs["mult"]) != (rv.obs["charge"], rv.obs["mult"]):
             viol(f"variant[{vc}]:constitution-changed", f"{src_name}[{k!r}]: atoms/bonds/charge/multiplicity differ between the bundled file and its {vc} rewrite")
             continue
@@ -755,12 +920,15 @@ def menu(ctx, path):
     singles += [["translate", dx, dy] for dx, dy in tr[:ntrans]]
     singles += [["permute", "reverse"], ["permute", "rotate", 1 + seed % 7]]
     singles += [["renumber", "offset", 100000 + 1000 * (seed % 50)], ["renumber", "compact"]]
+    singles += [["atomnumber", "add-all"], ["atomnumber", "remove-all"]]
+    if ctx.thorough:
+        singles += [["atomnumber", "add-ap"], ["atomnumber", "add-atoms"], ["atomnumber", "remove-ap"]]
     variants = [[s] for s in singles]
     if ctx.thorough:
         ks = [k for k in range(1, n_top) if k != 1 + seed % 7]
         variants += [[["permute", "rotate", k]] for k in ks]
         variants += [[["permute", "labels-first"]], [["permute", "labels-last"]], [["renumber", "reversed"]]]
-        base = [["mirror"], ["translate", tr[0][0], tr[0][1]], ["translate", tr[1][0], tr[1][1]], ["permute", "reverse"], ["permute", "rotate", 2 + seed % 5], ["permute", "labels-first"], ["renumber", "compact"], ["renumber", "reversed"], ["renumber", "offset", 777000]]
+        base = [["mirror"], ["translate", tr[0][0], tr[0][1]], ["translate", tr[1][0], tr[1][1]], ["permute", "reverse"], ["permute", "rotate", 2 + seed % 5], ["permute", "labels-first"], ["renumber", "compact"], ["renumber", "reversed"], ["renumber", "offset", 777000], ["atomnumber", "add-all"], ["atomnumber", "remove-all"]]
         for a, b in itertools.permutations(base, 2):
             if a[0] == b[0]:
                 continue
@@ -811,6 +979,8 @@ def run(ctx):
         "which fragment a label is drawn for is demanded only when the drawing settles it: the label shares a group with exactly one fragment, or the fragment nearest to the label in both city-block and Euclidean distance lies above it; otherwise (decoy labels) only consistency across lookups and rewrites is demanded",
         "absolute anchors are demanded only where the drawing fixes them independently of how the other marks are modelled: xy-orientation (y negated) on drawings without stereo marks; wedge direction on chain (non-ring) wedge bonds at centres with >= 3 neighbours whose part of the molecule is not tilted by another chain wedge; handedness at centres whose only stereo mark is one chain wedge and whose two reference neighbours carry no stereo mark",
         "a label that the drawing carries more than once (parser_demo: 'naphthalene') is not compared between a file and its reordered rewrites",
+        "atom labels: a node drawn with AtomNumber is labelled with it; without one a connection point is labelled 'AP' + ExternalConnectionNum ('AP0' when it has none) and an ordinary atom None (the parser's documented defaults, read off its behaviour on nodes without AtomNumber); compared atom by atom when the molecule matches the drawing in document order, as a multiset otherwise",
+        "access histories on one CDXMLFile object: every access (by label or by integer index, after the caller edited an earlier result in place, with other labels in between) must equal the first access as it was before any edit, and must not share atoms, bonds or the coordinate array with a molecule handed out before",
         "atom order is not demanded: the parsed molecule is matched to the drawing in document order and otherwise by graph isomorphism (networkx)",
     ]
     files = bundled_files()
